@@ -6,6 +6,7 @@ import (
 	"math"
 	"reflect"
 	"strconv"
+	"strings"
 
 	"github.com/ah-naf/borno/ast"
 	"github.com/ah-naf/borno/environment"
@@ -990,5 +991,58 @@ func stringify(value interface{}) string {
 	if valRune, ok := value.([]rune); ok {
 		return string(valRune)
 	}
+	switch value.(type) {
+	case []interface{}, map[string]interface{}:
+		// fmt's %v recurses forever on an array or object that contains itself
+		// (a[0] = a; print a; overflowed the stack), so containers are written here.
+		var b strings.Builder
+		writeContainer(&b, value, map[uintptr]bool{})
+		return b.String()
+	}
 	return fmt.Sprintf("%v", value)
+}
+
+// writeContainer writes arrays and objects in the layout of fmt's %v ([a b], map[k:v] with sorted
+// keys) and shows a container that is already being written as [...] / map[...].
+func writeContainer(b *strings.Builder, value interface{}, visiting map[uintptr]bool) {
+	switch v := value.(type) {
+	case []interface{}:
+		if len(v) > 0 {
+			id := reflect.ValueOf(v).Pointer()
+			if visiting[id] {
+				b.WriteString("[...]")
+				return
+			}
+			visiting[id] = true
+			defer delete(visiting, id)
+		}
+		b.WriteByte('[')
+		for i, element := range v {
+			if i > 0 {
+				b.WriteByte(' ')
+			}
+			writeContainer(b, element, visiting)
+		}
+		b.WriteByte(']')
+	case map[string]interface{}:
+		id := reflect.ValueOf(v).Pointer()
+		if visiting[id] {
+			b.WriteString("map[...]")
+			return
+		}
+		visiting[id] = true
+		defer delete(visiting, id)
+		b.WriteString("map[")
+		for i, key := range sortedKeys(v) {
+			if i > 0 {
+				b.WriteByte(' ')
+			}
+			b.WriteString(key)
+			b.WriteByte(':')
+			writeContainer(b, v[key], visiting)
+		}
+		b.WriteByte(']')
+	default:
+		fmt.Fprintf(b, "%v", v)
+	}
 }
